@@ -91,7 +91,7 @@ Proof.
   induction l as [|b r IH]; intros v consumed; cbn [lex_uint].
   - destruct consumed; discriminate.
   - destruct (is_digit b).
-    + destruct ((v * 10 + (b - c_0)) mod two64 <? v); [discriminate|apply IH].
+    + destruct (_ <? v); [discriminate|apply IH].
     + destruct (b =? c_nul); [discriminate|]. destruct consumed; discriminate.
 Qed.
 
@@ -127,7 +127,7 @@ Proof.
     + destruct (b =? c_colon); [|discriminate]. destruct (k =? c_d); apply IH.
     + pose proof (set_date_no_pan v e) as H.
       destruct (is_digit b).
-      * destruct ((v * 10 + (b - c_0)) mod two64 <? v); [discriminate|apply IH].
+      * destruct (_ <? v); [discriminate|apply IH].
       * destruct (b =? c_nul).
         -- destruct (set_date v e); [apply IH|discriminate|congruence].
         -- destruct consumed; [|discriminate].
